@@ -1,3 +1,4 @@
 import Driver.Common
 import Driver.Slots
 import Driver.Sched
+import Driver.Report
